@@ -150,10 +150,13 @@ fn build_all_tax_year_summaries(
             .push(m.clone());
     }
 
-    // Build summaries for each year
+    // Build summaries for each year, earliest first, so that a year that cannot be reported
+    // (no configured exemption) is always the same one, whatever the map's iteration order
     let mut summaries: Vec<TaxYearSummary> = Vec::new();
+    let mut years: Vec<(u16, Vec<MatchResult>)> = matches_by_year.into_iter().collect();
+    years.sort_by_key(|(year, _)| *year);
 
-    for (year, year_matches) in matches_by_year {
+    for (year, year_matches) in years {
         let tax_period =
             TaxPeriod::new(year).map_err(|_| CgtError::InvalidDateYear { year: year as i32 })?;
         let disposals = group_matches_into_disposals(year_matches);
